@@ -224,6 +224,7 @@ type Driver struct {
 	PrevSet TMSet // set of block Height (its votes are reported in BeginBlock(Height+1))
 	// pending (uncommitted) txs of the current block
 	pending  [][]byte
+	pendRes  []abci.ResponseDeliverTx
 	Results  []BlockResult
 	InitVals []abci.ValidatorUpdate
 	RuleErrs []string // Tendermint update-rule violations seen so far
@@ -262,15 +263,17 @@ type TMState struct {
 	Height                   int64
 	Time                     time.Time
 	PrevSet, CurSet, NextSet TMSet
-	Indexed                  map[string]int64
+	Indexed                  map[string]int64 // tx hash -> height
+	IndexedRes               map[string]abci.ResponseDeliverTx
 }
 
 // TMState snapshots the driver's Tendermint-side state.
 func (d *Driver) TMState() TMState {
-	st := TMState{Height: d.Height, Time: d.Time, PrevSet: d.PrevSet.Clone(), CurSet: d.CurSet.Clone(), NextSet: d.NextSet.Clone(), Indexed: map[string]int64{}}
+	st := TMState{Height: d.Height, Time: d.Time, PrevSet: d.PrevSet.Clone(), CurSet: d.CurSet.Clone(), NextSet: d.NextSet.Clone(), Indexed: map[string]int64{}, IndexedRes: map[string]abci.ResponseDeliverTx{}}
 	d.Index.mu.Lock()
 	for k, v := range d.Index.heights {
 		st.Indexed[k] = v
+		st.IndexedRes[k] = d.Index.results[k]
 	}
 	d.Index.mu.Unlock()
 	return st
@@ -286,9 +289,7 @@ func ResumeDriver(cfg Config, db dbm.DB, st TMState) (d *Driver, err error) {
 		}
 	}()
 	d = &Driver{Cfg: cfg, DB: db, Index: NewTxIndex(), NumKeys: 16}
-	for k, v := range st.Indexed {
-		d.Index.heights[k] = v
-	}
+	d.Index.Restore(st)
 	d.App = NewApp(db, cfg, d.Index)
 	d.Height, d.Time, d.PrevSet, d.CurSet, d.NextSet = st.Height, st.Time, st.PrevSet.Clone(), st.CurSet.Clone(), st.NextSet.Clone()
 	if d.App.LastBlockHeight() == 0 {
@@ -427,7 +428,7 @@ func (d *Driver) RunBlock(b Block, hk *Hooks) BlockResult {
 	if hk != nil && hk.AfterBegin != nil {
 		hk.AfterBegin(d, req)
 	}
-	d.pending = nil
+	d.pending, d.pendRes = nil, nil
 	for i, e := range b.Events {
 		if hk != nil && hk.BeforeEvent != nil {
 			hk.BeforeEvent(d, i, e)
@@ -471,10 +472,10 @@ func (d *Driver) RunBlock(b Block, hk *Hooks) BlockResult {
 	// Tendermint side: index txs of the committed block, advance the set pipeline.
 	d.Height++
 	d.Time = req.Header.Time
-	for _, tx := range d.pending {
-		d.Index.Add(tx, d.Height)
+	for i, tx := range d.pending {
+		d.Index.Add(tx, d.Height, d.pendRes[i])
 	}
-	d.pending = nil
+	d.pending, d.pendRes = nil, nil
 	newNext, errs := d.NextSet.ApplyUpdates(res.Updates)
 	for _, e := range errs {
 		d.RuleErrs = append(d.RuleErrs, fmt.Sprintf("h=%d: %s", d.Height, e))
@@ -494,6 +495,7 @@ func (d *Driver) runEvent(e Event, h abci.Header) (out *TxResult) {
 		if r := recover(); r != nil {
 			if e.Kind == "tx" && d.lastTx != nil {
 				d.pending = append(d.pending, d.lastTx)
+				d.pendRes = append(d.pendRes, abci.ResponseDeliverTx{Code: PanicCode, Log: fmt.Sprintf("PANIC: %v", r)})
 			}
 			out = &TxResult{Code: PanicCode, Log: fmt.Sprintf("PANIC: %v", r)}
 		}
@@ -506,6 +508,7 @@ func (d *Driver) runEvent(e Event, h abci.Header) (out *TxResult) {
 		r := d.App.DeliverTx(abci.RequestDeliverTx{Tx: bz})
 		d.lastTx = nil
 		d.pending = append(d.pending, bz)
+		d.pendRes = append(d.pendRes, abci.ResponseDeliverTx{Code: r.Code, Codespace: r.Codespace, Data: r.Data, Log: r.Log, Events: r.Events})
 		return &TxResult{Code: r.Code, Codespace: r.Codespace, Data: r.Data, Events: r.Events, Log: r.Log}
 	case "check":
 		bz := d.BuildTx(*e.Tx)
